@@ -481,6 +481,32 @@ func main() {
 				}
 				return append(rr.FillBytes(make([]byte, 48)), ss.FillBytes(make([]byte, 48))...)
 			}
+			// the request key is the client's own (unblinded) public key, the contents are signed with the
+			// client secret, and the blind handed over is empty / nil / zero: the blind is hashed (its
+			// factor is never 1), so the request key is NOT the client key blinded with that blind
+			{
+				sec := new(big.Int).SetBytes(h.secret)
+				priv := &stdecdsa.PrivateKey{D: sec}
+				priv.Curve = elliptic.P384()
+				priv.X, priv.Y = priv.Curve.ScalarBaseMult(sec.Bytes())
+				msg := append([]byte{0x00, 0x03}, h.clientKey...)
+				msg = append(msg, h.req.NameKeyID...)
+				msg = append(msg, byte(len(h.req.EncryptedTokenRequest)>>8), byte(len(h.req.EncryptedTokenRequest)))
+				msg = append(msg, h.req.EncryptedTokenRequest...)
+				dg := sha512.Sum384(msg)
+				rr, ss, err := stdecdsa.Sign(mc.NewStream(seedv, "c06-unblinded-sign"), priv, dg[:])
+				if err != nil {
+					panic(err)
+				}
+				sig := append(rr.FillBytes(make([]byte, 48)), ss.FillBytes(make([]byte, 48))...)
+				for _, bl := range []string{"", "00", hex.EncodeToString(make([]byte, 48)), "01"} {
+					c := mk(h, tag+"request-key-is-the-client-key-itself:signed-with-the-client-secret:degenerate-blind")
+					c.RequestKey = hex.EncodeToString(h.clientKey)
+					c.Signature = hex.EncodeToString(sig)
+					c.Blind = bl
+					add(c)
+				}
+			}
 			// a foreign request key in the request, the contents signed by the CLIENT's blinded key (the key
 			// the attester computes itself): the signature does not verify under the key the request carries
 			{
